@@ -2,6 +2,7 @@ package optdec
 
 import (
 	"encoding/json"
+	"errors"
 	"strconv"
 
 	"github.com/bytedance/sonic/internal/native"
@@ -85,6 +86,11 @@ func ParseF64(raw string) (float64, error) {
 }
 
 func Unquote(raw string) (string, error) {
+	// the text must be exactly one JSON string literal, json.Unmarshal alone
+	// also takes surrounding spaces and `null`
+	if len(raw) < 2 || raw[0] != '"' || raw[len(raw)-1] != '"' {
+		return "", errors.New("sonic: not a quoted string")
+	}
 	var u string
 	err := json.Unmarshal([]byte(raw), &u)
 	if err != nil {
